@@ -1,4 +1,5 @@
 import XalanModel.C10.SheetProofs
+import XalanModel.C10.AltProofs
 /-!
 # C10 — inside one module the quiet body returns the §5.5 winner (`quiet_sheet_spec`)
 -/
@@ -253,7 +254,7 @@ theorem entry_prio (t : Tmpl) (a : AltDesc) (pos i : Nat) :
 /-- **Inside one module the quiet body returns the §5.5 winner**, for rule sets in which every rule has one priority
 (`Tmpl.uniform`) and every matching alternative is filed in a list the node consults (`compat`). -/
 theorem quiet_sheet_spec (am : AltMatch) (k : NodeKind) (lname : String) (mode : Nat) (ts : List Tmpl)
-    (huni : ∀ t ∈ ts, t.uniform)
+    (huni : Generated.C10.perAlternativeMatch = false → ∀ t ∈ ts, t.uniform)
     (hsound : ∀ t ∈ ts, ∀ i a, t.alts[i]? = some a → am t i = true → compat (targetData a) k lname = true) :
     findInTables am k lname mode true ts = bestInSheet am mode ts := by
   simp only [findInTables, if_true, bestInSheet]
@@ -270,8 +271,15 @@ theorem quiet_sheet_spec (am : AltMatch) (k : NodeKind) (lname : String) (mode :
       refine ⟨(⟨t, off ts j + i, i, (targetData a).score⟩, targetData a), ?_, rfl, hsound t ht i a h1 h2⟩
       rw [mem_tmplEntries]
       exact ⟨j, t, i, a, h0, h1, by simp⟩
-    · simp only [entryMatches, Bool.and_eq_true]
-      exact ⟨(modeOk_iff mode t.mode).mpr hm, (wholeScore_isSome am t).mpr ⟨i, a, h1, h2⟩⟩
+    · cases hper : Generated.C10.perAlternativeMatch with
+      | false =>
+        rw [entryMatches_old hper]
+        simp only [entryMatchesW, Bool.and_eq_true]
+        exact ⟨(modeOk_iff mode t.mode).mpr hm, (wholeScore_isSome am t).mpr ⟨i, a, h1, h2⟩⟩
+      | true =>
+        rw [entryMatches_alt hper]
+        simp only [Bool.and_eq_true]
+        exact ⟨(modeOk_iff mode t.mode).mpr hm, h2⟩
   have hq := find_quiet_list_spec' am mode (locate (buildTables ts) k lname) hsorted
   have hb := pickBest_spec none (sheetCands am mode ts 0)
   cases hfq : findQuietList am mode (locate (buildTables ts) k lname) with
@@ -300,14 +308,29 @@ theorem quiet_sheet_spec (am : AltMatch) (k : NodeKind) (lname : String) (mode :
     have htm : t = tm := by rw [← hmt, hm_eq]
     have ht : t ∈ ts := List.mem_of_getElem? h0
     -- it matches, hence it is a candidate
-    simp only [entryMatches, Bool.and_eq_true] at hmatch
-    have hmode : t.mode = mode := by
-      have := (modeOk_iff mode m.tmpl.mode).mp hmatch.1
-      rw [hm_eq] at this; exact this
-    have hws : ∃ i a, t.alts[i]? = some a ∧ am t i = true := by
-      have := (wholeScore_isSome am m.tmpl).mp hmatch.2
-      rw [hm_eq] at this; exact this
-    obtain ⟨i2, a2, h21, h22⟩ := hws
+    have hboth : t.mode = mode ∧ ∃ i a, t.alts[i]? = some a ∧ am t i = true ∧ prioOf t am' = prioOf t a := by
+      cases hper : Generated.C10.perAlternativeMatch with
+      | false =>
+        rw [entryMatches_old hper] at hmatch
+        simp only [entryMatchesW, Bool.and_eq_true] at hmatch
+        refine ⟨?_, ?_⟩
+        · have := (modeOk_iff mode m.tmpl.mode).mp hmatch.1
+          rw [hm_eq] at this; exact this
+        · have := (wholeScore_isSome am m.tmpl).mp hmatch.2
+          rw [hm_eq] at this
+          obtain ⟨i, a, hia, hami⟩ := this
+          exact ⟨i, a, hia, hami,
+            prioOf_uniform (huni hper t ht) (List.mem_of_getElem? h1) (List.mem_of_getElem? hia)⟩
+      | true =>
+        rw [entryMatches_alt hper] at hmatch
+        simp only [Bool.and_eq_true] at hmatch
+        refine ⟨?_, ?_⟩
+        · have := (modeOk_iff mode m.tmpl.mode).mp hmatch.1
+          rw [hm_eq] at this; exact this
+        · have := hmatch.2
+          rw [hm_eq] at this
+          exact ⟨im, am', h1, this, rfl⟩
+    obtain ⟨hmode, i2, a2, h21, h22, hprio2⟩ := hboth
     have hcm : (⟨t, prioOf t a2, 0 + jm⟩ : Cand) ∈ sheetCands am mode ts 0 :=
       (mem_sheetCands am mode ts 0 _).mpr ⟨jm, t, i2, a2, h0, hmode, h21, h22, rfl⟩
     cases hpb : pickBest none (sheetCands am mode ts 0) with
@@ -326,7 +349,7 @@ theorem quiet_sheet_spec (am : AltMatch) (k : NodeKind) (lname : String) (mode :
         -- priorities
         have hp_m : m.prioOrDefault = prioOf t a2 := by
           rw [hm_eq, entry_prio]
-          exact prioOf_uniform (huni t ht) (List.mem_of_getElem? h1) (List.mem_of_getElem? h21)
+          exact hprio2
         have hp_mc : mc.prioOrDefault = prioOf tc ac := by rw [hmceq, entry_prio]
         have hpos_m : m.pos = off ts jm + im := by rw [hm_eq]
         have hpos_mc : mc.pos = off ts jc + ic := by rw [hmceq]
